@@ -950,6 +950,9 @@ func (hs *serverHandshakeStateTLS13) sendServerParameters() error {
 		ext := []byte{byte(byz.ALPSCodepoint >> 8), byte(byz.ALPSCodepoint), byte(len(byz.ALPSSettings) >> 8), byte(len(byz.ALPSSettings))}
 		ext = append(ext, byz.ALPSSettings...)
 		body := append(append([]byte(nil), data[6:]...), ext...)
+		if byz.ALPSFirst {
+			body = append(append([]byte(nil), ext...), data[6:]...)
+		}
 		out := []byte{typeEncryptedExtensions, 0, 0, 0, byte(len(body) >> 8), byte(len(body))}
 		out = append(out, body...)
 		n := len(out) - 4
